@@ -23,6 +23,10 @@ RelAgrees == (phase = "done" /\ lit.word # "") =>
        today == DaysFromCivil(lt.y, lt.m, lt.d)
        m == ParseDateTime(WordChars(lit.word), today)
    IN m.ok /\ m.a = (today + lit.rel) * 86400 /\ m.b = m.a + 86399
+(* conformance scenarios: the scenarios of MC_C13 with the characters of the literal and the local day of the clock (Judge_DateMech) *)
+TodayOf == LET lt == LocalTime(clock, ZoneOffAt(tz, clock)) IN DaysFromCivil(lt.y, lt.m, lt.d)
+EmitC == (phase = "done" /\ op # "stamp" /\ sep # "/") =>
+            PrintT(<<"REPLAY", ToJson(Scenario @@ [litc |-> IF lit.word = "" THEN LitChars(lit, sep) ELSE WordChars(lit.word), today |-> IF lit.word = "" THEN 0 ELSE TodayOf])>>)
 (* what is rejected, what is read leniently, what the model leaves to the free-form reader *)
 D(s) == s
 ASSUME ~ParseDateTime(<<"2","0","1","7","-","1","3","-","0","1">>, 0).ok /\ ~ParseDateTime(<<"2","0","1","7","-","0","2","-","3","0">>, 0).ok
